@@ -134,8 +134,11 @@ def r3(ctx: Ctx) -> None:
     prop_field = {}
     for name, fi in cls.methods.items():
         if fi.kind == "property":
+            from framelint.srcmodel import getter_field
             rets = [n for n in walk_own(fi.node) if isinstance(n, ast.Return)]
-            if len(rets) == 1 and isinstance(rets[0].value, ast.Attribute) and isinstance(rets[0].value.value, ast.Name) and rets[0].value.value.id == "self":
+            if getter_field(fi.node) is not None:
+                prop_field[name] = getter_field(fi.node)
+            elif len(rets) == 1 and isinstance(rets[0].value, ast.Attribute) and isinstance(rets[0].value.value, ast.Name) and rets[0].value.value.id == "self":
                 prop_field[name] = rets[0].value.attr
             if name == "is_soft":
                 prop_field[name] = "_hard"
